@@ -57,7 +57,8 @@ int main(int argc, char** argv) {
         keys.push_back(k);
     }
     auto pick = [&]() { return keys[rng() % keys.size()]; };
-    auto endkey = [&]() { std::string k = pick(); int m = rng() % 6; if (m == 0 && !k.empty()) k.pop_back(); else if (m == 1) k.push_back((char)AL[rng() % alpha]); else if (m == 2) k.push_back(0); else if (m == 3) k = rnd_bytes(rng() % (maxlen + 2)); return k; };
+    auto endkey = [&]() { if (rng() % 12 == 0) return std::string(8, (char)255) + rnd_bytes(rng() % 3);   // endpoints behind the all-FF slice
+        std::string k = pick(); int m = rng() % 6; if (m == 0 && !k.empty()) k.pop_back(); else if (m == 1) k.push_back((char)AL[rng() % alpha]); else if (m == 2) k.push_back(0); else if (m == 3) k = rnd_bytes(rng() % (maxlen + 2)); return k; };
     init();
     const std::string st = "t";
     create_storage(st);
